@@ -100,6 +100,18 @@ func genC01(o *out, r *Rng) {
 			o.e2eBoth(script(sk[r.N(len(sk))]), Opts{Sw: defSw})
 		}
 	}
+	// a finished inner construct of every kind, then a continue / break that belongs to the enclosing loop
+	inner := []string{"while { c1 if (flag(I)) { break } }", "while { if (flag(I)) { break } c1 }", "while (flag(I)) { c1 }", "do { c1 } while (flag(I))", "do { c1 if (flag(J)) { continue } c2 } while (flag(I))",
+		"switch (var(V)) { case 1: c1 break case 2: c2 }", "while { while { break } c1 break }", "if (flag(I)) { c1 }"}
+	outer := []string{"while (flag(O)) { %s }", "do { %s } while (flag(O))", "while { %s if (flag(P)) { break } }", "while (flag(O)) { switch (var(W)) { case 1: %s } c9 }"}
+	after := []string{"if (flag(K)) { continue } c3", "if (flag(K)) { break } c3", "c3 if (flag(K)) { c4 continue }", "if (flag(K)) { c4 } else { continue } c3", "c3 continue", "c3 break"}
+	for _, in := range inner {
+		for _, ou := range outer {
+			for _, af := range after {
+				o.e2eBoth(script("c0 "+fmt.Sprintf(ou, "c5 "+in+" "+af)+" c8"), Opts{Sw: defSw})
+			}
+		}
+	}
 	randomScripts(o, r, scale(300, 6000), func(g *ScriptGen) { g.UseSwitch = false; g.UseCompound = false; g.UseAuto = false }, 0)
 	randomScripts(o, r, scale(100, 2000), func(g *ScriptGen) { g.MaxDepth = 5; g.MaxLen = 3 }, 0)
 }
@@ -208,6 +220,33 @@ func genC05(o *out, r *Rng) {
 	}
 	randomScripts(o, r, scale(400, 8000), func(g *ScriptGen) {}, 0)
 	progCases(o, r, scale(100, 2000), func(g *ProgGen) {}, Opts{}, 0)
+	// the same content under several labels (text statements, inline strings, movement statements and moves()): both
+	// settings must define the same labels with the same data
+	pool := []string{"\"Hello\"", "\"Hello$\"", "\"Bye\"", "ascii\"Hello\"", "format(\"Hello\")", "\"Two\\nlines\""}
+	for i := 0; i < scale(150, 3000); i++ {
+		src := ""
+		for k := 0; k < 1+r.N(3); k++ {
+			src += fmt.Sprintf("text%s T%d { %s }\n", []string{"", "(local)", "(global)"}[r.N(3)], k, pool[r.N(len(pool))])
+		}
+		src += "script S {\n"
+		for k := 0; k < 1+r.N(3); k++ {
+			src += "msgbox(" + pool[r.N(len(pool))] + ")\n"
+			if r.P(30) {
+				src += "if (flag(A)) { msgbox(" + pool[r.N(len(pool))] + ") }\n"
+			}
+			if r.P(30) {
+				src += "applymovement(1, moves(" + []string{"walk_up", "walk_up * 2", "walk_up walk_up"}[r.N(3)] + "))\n"
+			}
+		}
+		src += "}\n"
+		if r.P(40) {
+			src += "movement M { " + []string{"walk_up", "walk_up * 2", "walk_up walk_up"}[r.N(3)] + " }\n"
+		}
+		if r.P(30) {
+			src += fmt.Sprintf("text Late { %s }\n", pool[r.N(len(pool))])
+		}
+		o.e2eBoth(src, Opts{Sw: defSw})
+	}
 }
 
 func genC06(o *out, r *Rng) {
@@ -253,6 +292,11 @@ func genC06(o *out, r *Rng) {
 		}
 		o.e2eBoth(t.Canon(), Opts{Sw: defSw})
 	}
+	for i := 0; i < scale(200, 4000); i++ {
+		t, x := collidingMoves(r)
+		o.add(x)
+		o.add(E2E(t.Canon(), Opts{Opt: r.P(50), Sw: defSw}))
+	}
 	// clashes with user-defined names
 	for _, s := range []string{
 		"script A { msgbox(\"x\") }\ntext A_Text_0 { \"y\" }",
@@ -279,7 +323,7 @@ func genC07(o *out, r *Rng) {
 	// the three parameter routes through the compiler
 	o.dir("PROJ", "text")
 	texts := []string{"Hello, this is some long text that I want Poryscript to automatically format for me.", "Hi\\pA paragraph that is long enough to wrap at least twice in a narrow box\\Nand goes on here", "{PLAYER} one two three four five six seven eight nine ten eleven"}
-	fontspec := "fA|fA:100:3:6:" + Hex(" ") + "=3;" + Hex("default") + "=6;" + Hex("{PLAYER}") + "=40|fB:60:2:0:" + Hex(" ") + "=2;" + Hex("default") + "=5;" + Hex("e") + "=9"
+	fontspec := "fA|fA:100:3:6:" + Hex(" ") + "=3;" + Hex("default") + "=6;" + Hex("{PLAYER}") + "=40|fB:60:2:0:" + Hex(" ") + "=2;" + Hex("default") + "=5;" + Hex("e") + "=9;" + Hex("{PLAYER}") + "=11;" + Hex("{UP_ARROW}") + "=30"
 	type fcall struct {
 		call             string
 		font             string // "" = inherit (-f, else the config default)
@@ -291,7 +335,7 @@ func genC07(o *out, r *Rng) {
 	}
 	fonts := map[string]fdef{
 		"fA": {Hex(" ") + "=3;" + Hex("default") + "=6;" + Hex("{PLAYER}") + "=40", 100, 3, 6},
-		"fB": {Hex(" ") + "=2;" + Hex("default") + "=5;" + Hex("e") + "=9", 60, 2, 0},
+		"fB": {Hex(" ") + "=2;" + Hex("default") + "=5;" + Hex("e") + "=9;" + Hex("{PLAYER}") + "=11;" + Hex("{UP_ARROW}") + "=30", 60, 2, 0},
 	}
 	calls := []fcall{
 		{"format(\"%s\")", "", 0, 0, -1}, {"format(\"%s\", \"fB\")", "fB", 0, 0, -1}, {"format(\"%s\", 80)", "", 80, 0, -1},
@@ -340,6 +384,23 @@ func genC07(o *out, r *Rng) {
 			}
 			o.add(E2E(src, Opts{Opt: true, Sw: defSw}))
 			o.add(E2E(src, Opts{Opt: true, Lint: true}))
+		}
+	}
+	// several format() calls with different fonts in one program: each text is laid out with its own font's widths
+	// (words with control codes whose width differs between the fonts, in both orders)
+	two := []string{"{PLAYER} one two {PLAYER}! three four five six {PLAYER} seven eight nine", "up {UP_ARROW} and {PLAYER} went {UP_ARROW}{UP_ARROW} far away {PLAYER}{PLAYER} indeed it was so", "a{PLAYER}b a{PLAYER}b a{PLAYER}b a{PLAYER}b a{PLAYER}b a{PLAYER}b"}
+	for _, tx := range two {
+		for _, ord := range [][]string{{"fA", "fB"}, {"fB", "fA"}, {"fA", "fB", "fA"}, {"fB", "fB", "fA"}} {
+			for _, mw := range []int{60, 80, 100} {
+				src := ""
+				for k, f := range ord {
+					lab := fmt.Sprintf("T%d", k)
+					src += fmt.Sprintf("text %s { format(\"%s\", \"%s\", %d) }\n", lab, tx, f, mw)
+					fd := fonts[f]
+					o.dir("EXPECTFMT", lab, fd.widths, fmt.Sprint(mw), fmt.Sprint(fd.curs), f, fmt.Sprint(fd.nl), Hex(tx))
+				}
+				o.add(E2E(src, Opts{Opt: true, Sw: defSw, FontSpec: fontspec}))
+			}
 		}
 	}
 	progCases(o, r, scale(50, 1000), func(g *ProgGen) { g.UseFormat = true }, Opts{}, 0)
@@ -540,6 +601,32 @@ func genC11(o *out, r *Rng) {
 		} {
 			o.e2eBoth(s, Opts{Sw: defSw, Cfg: cfg})
 		}
+		// an AutoVar command with an inline text / format() / moves() argument in every operand position of a chain
+		autos := []string{"checkitem(\"Hello\") == 2", "random(format(\"Hi there\")) != 1", "checkitem(I, moves(walk_up face_down))", "!checkitem(\"Bye\", 3)", "specialvar(VAR_R, \"T\") > 1"}
+		plain := []string{"flag(A)", "var(V) == 1", "!flag(B)", "defeated(T)"}
+		for _, a := range autos {
+			for _, ops := range [][2]string{{"&&", "&&"}, {"&&", "||"}, {"||", "&&"}, {"||", "||"}} {
+				for pos := 0; pos < 3; pos++ {
+					l := []string{plain[r.N(4)], plain[r.N(4)], plain[r.N(4)]}
+					l[pos] = a
+					if r.P(30) {
+						l[(pos+1)%3] = autos[r.N(len(autos))]
+					}
+					e := l[0] + " " + ops[0] + " " + l[1] + " " + ops[1] + " " + l[2]
+					forms := []string{"if (" + e + ") { a } else { b }", "while (" + e + ") { a }", "do { a } while (" + e + ")", "if (flag(Z)) { a } elif (" + e + ") { b }", "if ((" + e + ") && flag(Q)) { a }"}
+					o.e2eBoth("script S { "+forms[r.N(len(forms))]+" tail }", Opts{Sw: defSw, Cfg: cfg})
+				}
+			}
+		}
+		// statements whose blocks are all empty still evaluate their conditions (AutoVar commands run)
+		for _, s := range []string{
+			"script S { if (flag(F)) {} elif (checkitem(I, 1) == 1) {} tail }", "script S { if (flag(F)) {} elif (flag(G)) {} elif (random(3) == 2) {} else {} }",
+			"script S { if (flag(F)) {} elif (flag(G) || !checkitem(J)) {} }", "script S { if (checkitem(I) == 2) {} }", "script S { if (flag(F) && random(2)) {} else {} tail }",
+			"script S { while (checkitem(I) == 2) {} tail }", "script S { do {} while (random(4) > 2) }", "script S { a if (flag(F)) { # only a comment\n } elif (specialvar(VAR_R, G) == 1) { } b }",
+			"script S { switch (random(4)) { case 0: case 1: } tail }", "script S { if (flag(A)) {} elif (flag(B)) { if (flag(C)) {} elif (checkitem(K)) {} } }",
+		} {
+			o.e2eBoth(s, Opts{Sw: defSw, Cfg: cfg})
+		}
 	}
 	for i := 0; i < scale(400, 8000); i++ {
 		g := NewScriptGen(r)
@@ -602,6 +689,42 @@ func genC13(o *out, r *Rng) {
 	}
 }
 
+func expandSteps(t []string) []string {
+	var out []string
+	for i := 0; i < len(t); i++ {
+		if t[i] == "*" {
+			n, _ := strconv.Atoi(t[i+1])
+			for k := 1; k < n; k++ {
+				out = append(out, out[len(out)-1])
+			}
+			i++
+			continue
+		}
+		out = append(out, t[i])
+	}
+	return out
+}
+
+func collidingMoves(r *Rng) (Toks, Case) {
+	pool := [][]string{{"delay_16"}, {"delay_1", "*", "6"}, {"delay_1", "*", "61"}, {"delay_161"}, {"delay_1", "delay_1", "delay_1", "delay_1", "delay_1", "delay_1"}, {"delay_16", "*", "1"},
+		{"delay_1", "*", "1", "delay_6"}, {"delay_1", "delay_6"}, {"delay_1", "*", "16"}, {"delay_11", "*", "6"}, {"walk_up2"}, {"walk_up", "*", "2"}, {"walk_up", "walk_up"}, {"walk_up", "*", "21"}, {"walk_up2", "*", "1"}, {"walk_up21"}}
+	src := Toks{"script", "S", "{"}
+	pre := [][]string{{}, {"walk_up"}, {"face_left", "*", "2"}}[r.N(3)]
+	post := [][]string{{}, {"walk_down"}, {"jump", "*", "3"}}[r.N(3)]
+	var want []string
+	for k := 0; k < 2+r.N(4); k++ {
+		src = append(src, "applymovement", "(", "P", ",", "moves", "(")
+		var mv []string
+		mv = append(mv, pre...)
+		mv = append(mv, pool[r.N(len(pool))]...)
+		mv = append(mv, post...)
+		src = append(src, mv...)
+		src = append(src, ")", ")")
+		want = append(want, strings.Join(expandSteps(mv), " "))
+	}
+	return append(src, "}"), Case{"EXPECTMOVES", []string{"applymovement", Hex(strings.Join(want, ";"))}}
+}
+
 func genC14(o *out, r *Rng) {
 	o.dir("PROJ", "text")
 	o.dir("ORACLE", "lists")
@@ -610,6 +733,13 @@ func genC14(o *out, r *Rng) {
 	for _, m := range mults {
 		o.add(E2E("movement M { walk_up * "+m+" walk_down }", Opts{Opt: true, Sw: defSw}))
 		o.add(E2E("script S { x(moves(walk_up * "+m+")) }", Opts{Opt: true, Sw: defSw}))
+	}
+	// several moves() in one file whose step lists differ although "name followed by repeat count" reads the same
+	// (delay_16 once / delay_1 six times / delay_1 sixty-one times / delay_161 ...): each must keep its own content
+	for i := 0; i < scale(300, 6000); i++ {
+		t, x := collidingMoves(r)
+		o.add(x)
+		o.add(E2E(t.Canon(), Opts{Opt: true, Sw: defSw}))
 	}
 	steps := []string{"walk_up", "walk_down", "step_end", "face_left", "jump"}
 	for i := 0; i < scale(1500, 30000); i++ {
@@ -769,6 +899,31 @@ func genC16(o *out, r *Rng) {
 		o.add(E2E(src, Opts{Opt: opt, Sw: g.Sw, LmPath: paths[r.N(len(paths))]}))
 		o.add(E2E(src, Opts{Opt: opt, Sw: g.Sw}))
 	}
+	// constructs whose tokens are spread over several lines (and interrupted by comments): the marker names the line where
+	// the construct starts
+	type wrapped struct {
+		src   string
+		marks string // line<TAB>prefix of the emitted line that the marker with that line precedes
+	}
+	for _, wc := range []wrapped{
+		{"script S {\n  switch (var(VAR_BASE +\n      OFFSET)) {\n    case 1: a\n    case 2:\n      b\n  }\n}", "2\t\tswitch VAR_BASE + OFFSET\n4\t\tcase 1,\n5\t\tcase 2,\n4\t\ta\n6\t\tb"},
+		{"script S {\n  switch (var(VAR_BASE # why\n  + 1 // more\n  + 2)) {\n    case 1:\n      a\n  }\n  tail\n}", "2\t\tswitch VAR_BASE + 1 + 2\n5\t\tcase 1,\n6\t\ta\n8\t\ttail"},
+		{"const K = 3\nscript S {\n  switch (var(K +\n K)) {\n    case K: a\n    default:\n b\n  }\n}", "3\t\tswitch 3 + 3\n5\t\tcase 3,\n5\t\ta\n7\t\tb"},
+		{"script S {\n  switch\n (\n var\n (\n VAR_A\n )\n )\n {\n    case\n 1\n :\n a\n  }\n}", "6\t\tswitch VAR_A\n11\t\tcase 1,\n13\t\ta"},
+		{"script S {\n  if (var(VAR_A +\n 1) ==\n 2 +\n 3) {\n a\n }\n}", "2\t\tcompare VAR_A + 1, 2 + 3\n6\t\ta"},
+		{"script S {\n  if (flag(A\n) &&\n !flag(\n B) ||\n defeated(T\n)) {\n a\n } elif (var(\n V) >\n 3) {\n b\n }\n}", "2\t\tgoto_if_set A,\n5\t\tgoto_if_unset B,\n6\t\tchecktrainerflag T\n10\t\tcompare V, 3\n8\t\ta\n12\t\tb"},
+		{"script S {\n  while (var(VAR_A) <\n 10 +\n 1) {\n a\n }\n  do {\n b\n } while (flag(\n C))\n}", "2\t\tcompare VAR_A, 10 + 1\n5\t\ta\n8\t\tb\n10\t\tgoto_if_set C,"},
+		{"script S {\n  cmd(1,\n 2 +\n 3,\n \"text\n over lines\")\n  other(moves(walk_up\n walk_down *\n 2))\n}", "2\t\tcmd 1, 2 + 3,\n7\t\tother \n7\t\twalk_up\n8\t\twalk_down\n5\t\t.string"},
+		{"script S {\n  switch (random(\n 4)) {\n case 0: a\n }\n  if (checkitem(I,\n 2) ==\n 1) {\n b\n }\n}", "4\t\tcase 0,\n4\t\ta\n9\t\tb"},
+		{"mapscripts M {\n  MAP_SCRIPT_ON_FRAME_TABLE [\n    VAR_A +\n 1, 2 +\n 3 {\n a\n }\n    VAR_B,\n 1: Lbl\n  ]\n}", "2\t\tmap_script MAP_SCRIPT_ON_FRAME_TABLE,\n3\t\tmap_script_2 VAR_A + 1, 2 + 3,\n8\t\tmap_script_2 VAR_B, 1, Lbl\n6\t\ta"},
+		{"movement M {\n walk_up *\n 3\n walk_down\n}\nmart Shop {\n ITEM_A\n ITEM_B\n}\ntext T {\n \"a\\n\"\n \"b\"\n}", "2\t\twalk_up\n4\t\twalk_down\n7\t\t.2byte ITEM_A\n8\t\t.2byte ITEM_B"},
+	} {
+		for _, opt := range []bool{false, true} {
+			o.dir("EXPECTMARK", Hex(wc.marks))
+			o.add(E2E(wc.src, Opts{Opt: opt, Sw: defSw, LmPath: "in.pory", Cfg: "checkitem=VAR_RESULT,random=VAR_RESULT"}))
+			o.add(E2E(wc.src, Opts{Opt: opt, Sw: defSw, Cfg: "checkitem=VAR_RESULT,random=VAR_RESULT"}))
+		}
+	}
 	// raw blocks: empty, blank lines, trailing spaces, Windows line endings, no final newline
 	raws := []string{"", "\n", "x", "\nfirst\n\n\nafter blanks\n", "  indented  \n\ttabbed\t\n", "a\r\nb\r\n", "\r\n", "last line without newline\nend"}
 	for _, rw := range raws {
@@ -804,8 +959,13 @@ func genC17(o *out, r *Rng) {
 	dup := "text A { \"1\" }\ntext B { \"2\" }\n\ntext A { \"3\" }\ntext C { \"c\" }\ntext B { \"4\" }\ntext C { \"5\" }\nmovement M { walk_up }\nmovement N { walk_up }\nmovement M { walk_down }\nmovement N { x }"
 	dup2 := "script S { msgbox(\"a\") msgbox(\"b\") }\ntext S_Text_1 { \"x\" }\ntext S_Text_0 { \"y\" }"
 	dup3 := "movement M { walk_up }\nmovement N { walk_up }\nmovement M { walk_down }\nmovement N { x }\nmovement O { x }\nmovement O { y }"
+	// several user labels, in different chunks of one script, that clash with generated labels: always the same error
+	dup4 := "script S {\n lock\n if (flag(A)) {\n S_2:\n a\n } else {\n S_3:\n b\n }\n S_1:\n c\n while (flag(B)) {\n S_5:\n d\n }\n}"
+	dup5 := "script S {\n msgbox(\"t\")\n if (flag(A)) {\n S_Text_0:\n a\n }\n S_2:\n b\n switch (var(V)) {\n case 1:\n S_4:\n c\n case 2:\n S_1:\n d\n }\n}"
+	dup6 := "mapscripts M {\n MAP_SCRIPT_ON_LOAD {\n if (flag(A)) {\n M_MAP_SCRIPT_ON_LOAD_2:\n a\n } else {\n M_MAP_SCRIPT_ON_LOAD_1:\n b\n }\n M_MAP_SCRIPT_ON_LOAD_3:\n c\n }\n}"
 	for k := 0; k < 12; k++ {
 		pool = append(pool, E2E(dup, Opts{Opt: true, Sw: defSw}), E2E(dup2, Opts{Opt: true, Sw: defSw}), E2E(dup3, Opts{Opt: true, Sw: defSw}))
+		pool = append(pool, E2E(dup4, Opts{Opt: true, Sw: defSw}), E2E(dup4, Opts{Opt: false, Sw: defSw}), E2E(dup5, Opts{Opt: k%2 == 0, Sw: defSw}), E2E(dup6, Opts{Opt: k%2 == 0, Sw: defSw}))
 	}
 	wA := Hex(" ") + "=3;" + Hex("default") + "=6"
 	wB := Hex(" ") + "=1;" + Hex("default") + "=2"
@@ -970,6 +1130,13 @@ func genC18(o *out, r *Rng) {
 	for i := 0; i < scale(500, 10000); i++ {
 		emit(Soup(r))
 	}
+	// constants that mention themselves, each other, or names defined later
+	for _, s := range []string{"const A = A\nscript S { foo(A) }", "const A = B\nconst B = A\nscript S { foo(A, B) }", "const A = B\nconst B = A\nscript S { if (var(A) == B) { x } }",
+		"const A = B\nconst B = C\nconst C = A\nmart M { A B C }", "const A = B\nconst B = A\nscript S { switch (var(A)) { case B: x } }", "const A = A + 1\nscript S { foo(A) }",
+		"const A = B\nconst B = A\nmapscripts M { MAP_SCRIPT_ON_FRAME_TABLE [ A, B: L ] }", "const A = B\nconst B = A\nconst C = A\nscript S { foo(C) }", "const A = B\nconst B = 2\nscript S { foo(A, B) }",
+		"const A = A\nscript S { lock }", "const B = A\nconst A = B\nscript S { if (flag(A) && defeated(B)) { x } }"} {
+		emit(s)
+	}
 	for _, s := range []string{"const TWO = A B\nmart M { TWO X }", "const TWO = A B\nmart M { X TWO TWO }\nmovement Mv { TWO }", "const E =\nmart M { E }", "const K = ITEM_NONE\nmart M { A K B }"} {
 		emit(s)
 	}
@@ -989,6 +1156,14 @@ func genC18(o *out, r *Rng) {
 	for _, h := range holes {
 		for _, a := range atoms {
 			emit(strings.ReplaceAll(h, "%s", a))
+		}
+	}
+	// unterminated nests whose levels have fewer tokens than parsing functions (found by the fuel proof: FuelOk.v)
+	for d := 1; d <= 12; d++ {
+		for _, lv := range []string{"while { ", "do { ", "if (flag(A)) { ", "while (flag(A)) { ", "switch (var(V)) { case 1: ", "poryswitch(V) { A { "} {
+			emit("script X { " + strings.Repeat(lv, d))
+			emit("script X { " + strings.Repeat(lv, d) + "if (flag(A)) {")
+			emit("mapscripts M { MAP_SCRIPT_ON_LOAD { " + strings.Repeat(lv, d))
 		}
 	}
 	// deep nesting
@@ -1015,7 +1190,7 @@ func genC19(o *out, r *Rng) {
 	// every class at column 0 / after a multi-byte rune / at EOF
 	for _, x := range Lexemes {
 		for _, pre := range []string{"", "é ", "日本\n", "\r\n", "# c\n", "x ", "€"} {
-			for _, post := range []string{"", " ", "\n", "é", " x", "// c"} {
+			for _, post := range []string{"", " ", "\n", "é", " x", "// c", "//", " //", "#", " #", "// ", "/", " /", "//\r", "/**/"} {
 				o.add(Case{"LEX", []string{Hex(pre + x + post)}})
 			}
 		}
@@ -1029,7 +1204,8 @@ func genC19(o *out, r *Rng) {
 		p := g.Program()
 		o.add(E2E(p.A.Canon(), Opts{Opt: true, Sw: g.Sw}))
 		o.add(E2E(p.A.Layout(r, false), Opts{Opt: true, Sw: g.Sw}))
-		o.add(E2E(p.A.Layout(r, true), Opts{Opt: true, Sw: g.Sw}))
+		// (third layout: sometimes with a comment as the very last bytes of the file, no newline after it)
+		o.add(E2E(p.A.Layout(r, true)+[]string{"", "", "", "//", "#", " //", "\n//", "// x", "# x", "//\r", "\t#"}[r.N(11)], Opts{Opt: true, Sw: g.Sw}))
 	}
 }
 
